@@ -61,10 +61,6 @@ pub mod mpsc_fx {
             ensures final(fx)@ == old(fx)@.push(Effect::NewStream { id: value.id, chan: value.reader_chan })
         { unimplemented!() }
     }
-    #[verifier::external_body]
-    pub fn unbounded_channel<T>() -> (r: (mpsc::UnboundedSender<T>, mpsc::UnboundedReceiver<T>))
-        ensures r.0.chan() == r.1.chan()
-    { unimplemented!() }
 }
 pub use mpsc_fx::SendError;
 pub mod oneshot {
@@ -290,3 +286,5 @@ pub broadcast proof fn lemma_deliveries_push(fx: Seq<Effect>, e: Effect)
     ensures #[trigger] deliveries(fx.push(e)) == (match e { Effect::Send { .. } => deliveries(fx).push(e), Effect::NewStream { .. } => deliveries(fx).push(e), Effect::NotifySynack { .. } => deliveries(fx).push(e), Effect::CloseWithError { .. } => deliveries(fx).push(e), _ => deliveries(fx) })
 { assert(fx.push(e).drop_last() =~= fx); assert(fx.push(e).last() == e); }
 pub broadcast group group_proj { lemma_closed_push, lemma_failed_push, lemma_waiters_push, lemma_shutdown_push, lemma_deliveries_push }
+// module paths as written in the source
+pub mod tokio { pub mod sync { pub use super::super::oneshot; pub use super::super::mpsc; pub use super::super::tsync::Mutex; } pub mod time { pub use super::super::time::*; pub use super::super::Duration; pub use super::super::Instant; } }
